@@ -393,7 +393,7 @@ func checkC11Unbound(c *c11UnboundCase) error {
 
 func TestC11(t *testing.T) {
 	runWitnesses(t, "C11")
-	runProp(t, "diff", 12000, 1000000, func(t *rapid.T) {
+	runProp(t, "diff", 60000, 1000000, func(t *rapid.T) {
 		ev := xmodel.Gen(t, docCfg())
 		p, err := prepareDoc(ev)
 		if err != nil {
@@ -447,7 +447,7 @@ func TestC11(t *testing.T) {
 			t.Fatalf("C11/diff: %v", err)
 		}
 	})
-	runProp(t, "rename", 4000, 300000, func(t *rapid.T) {
+	runProp(t, "rename", 20000, 300000, func(t *rapid.T) {
 		ev := xmodel.Gen(t, docCfg())
 		p, err := prepareDoc(ev)
 		if err != nil {
@@ -469,7 +469,7 @@ func TestC11(t *testing.T) {
 		}
 		c11Rename.run(t, c)
 	})
-	runProp(t, "variables", 6000, 300000, func(t *rapid.T) {
+	runProp(t, "variables", 30000, 300000, func(t *rapid.T) {
 		ev := xmodel.Gen(t, xmodel.GenCfg{MaxDepth: 3, MaxKids: 3})
 		p, err := prepareDoc(ev)
 		if err != nil {
@@ -507,7 +507,7 @@ func TestC11(t *testing.T) {
 		st.Sample(key, map[string]any{"ref": "$" + c.Ref, "bound": c.Var})
 		c11Var.run(t, c)
 	})
-	runProp(t, "functions", 5000, 300000, func(t *rapid.T) {
+	runProp(t, "functions", 25000, 300000, func(t *rapid.T) {
 		ev := xmodel.Gen(t, xmodel.GenCfg{MaxDepth: 3, MaxKids: 3, Numeric: true})
 		p, err := prepareDoc(ev)
 		if err != nil {
@@ -559,7 +559,7 @@ func TestC11(t *testing.T) {
 		}
 		c11Fn.run(t, c)
 	})
-	runProp(t, "unbound", 4000, 200000, func(t *rapid.T) {
+	runProp(t, "unbound", 20000, 200000, func(t *rapid.T) {
 		ev := xmodel.Gen(t, xmodel.GenCfg{MaxDepth: 2, MaxKids: 2})
 		c := &c11UnboundCase{Events: ev, NS: map[string]string{"x": "urn:x"}}
 		// the reference is in a position that is certainly evaluated
